@@ -15,7 +15,7 @@ for s in $SEEDS; do
   out=$(bin/check $prop quick 2>&1); rc=$?
   nv=$(echo "$out" | grep -c '^VIOLATION')
   first=$(echo "$out" | grep '^VIOLATION' | head -1)
-  git -C $REPO checkout -- .
+  git -C $REPO checkout -- .; git -C $REPO clean -fdq src
   cp .build/evidence_backup/*.json evidence/ 2>/dev/null
   echo "seed=$s property=$prop exit=$rc violations=$nv $first"
   python3 - <<PY
